@@ -2,9 +2,10 @@
    Proved here for the parts modelled in Model/ProfileTables.v: interning, the stack table, unique pid/tid strings, the thread order
    translation, and the table checker that the correspondence run applies to every table of every serialized profile.
    and the per-thread frame / func / resource / string tables (Model/FrameTables.v).
-   Not yet modelled (their theorems are absent, the run-time checker covers their tables): native-symbol table, symbolicated frames
-   with inline depth, marker field consumption, counters; see DESIGN.md 9. *)
-From SV Require Import Model.ProfileTables Proofs.ProfileTablesProofs Model.FrameTables Proofs.FrameTablesProofs.
+   Marker payloads (Model/MarkerTable.v): the flat field-value vectors and their consumption at serialization time.
+   Not yet modelled (their theorems are absent, the run-time checker covers their tables): symbolicated frames
+   with inline depth, counter sample columns (C04 covers their ordering); see DESIGN.md 9. *)
+From SV Require Import Model.ProfileTables Proofs.ProfileTablesProofs Model.FrameTables Proofs.FrameTablesProofs Proofs.ThreadOrderProofs Model.MarkerTable Proofs.MarkerTableProofs.
 From Coq Require Import Permutation.
 
 (* interning: the returned handle is in range and gives the key back; earlier handles keep their meaning *)
@@ -53,8 +54,41 @@ Proof. intros ids. exact (proj1 (make_all_unique_spec ids [])). Qed.
 Theorem C03_thread_refs :
   forall procs threads h i, new_thread_index procs threads h = Some i -> nth_error (sorted_threads procs threads) i = Some h.
 Proof. exact new_thread_index_denotes. Qed.
+(* the threads of a process are adjacent: between two serialized threads of one process there is no thread of another *)
+Theorem C03_threads_adjacent :
+  forall procs threads i j k hi hj hk, i <= j -> j <= k ->
+    nth_error (sorted_threads procs threads) i = Some hi -> nth_error (sorted_threads procs threads) j = Some hj ->
+    nth_error (sorted_threads procs threads) k = Some hk ->
+    proc_of threads hi = proc_of threads hk -> proc_of threads hj = proc_of threads hi.
+Proof. exact threads_adjacent. Qed.
+Theorem C03_threads_all_serialized :
+  forall procs threads h, h < length threads -> proc_of threads h < length procs -> In h (sorted_threads procs threads).
+Proof. exact threads_all_serialized. Qed.
+(* ... with a main thread first, whenever the process has one (whatever the start times, names and tids are) *)
+Theorem C03_main_thread_first :
+  forall threads p, (exists h, h < length threads /\ proc_of threads h = p /\ is_main threads h = true) ->
+    exists h0 r, block threads p = h0 :: r /\ is_main threads h0 = true.
+Proof. exact main_thread_first. Qed.
+(* a counter's mainThreadIndex (first_thread_index of its process): the thread at that position belongs to the process the caller
+   named, is a main thread if the process has one, and no earlier position holds a thread of that process *)
+Theorem C03_first_thread_index :
+  forall procs threads p i, first_thread_index procs threads p = Some i -> (exists h, h < length threads /\ proc_of threads h = p) ->
+    exists h0, nth_error (sorted_threads procs threads) i = Some h0 /\ proc_of threads h0 = p /\
+               ((exists h, h < length threads /\ proc_of threads h = p /\ is_main threads h = true) -> is_main threads h0 = true) /\
+               forall j y, j < i -> nth_error (sorted_threads procs threads) j = Some y -> proc_of threads y <> p.
+Proof. exact first_thread_index_denotes. Qed.
 Theorem C03_sort_permutes : forall (A : Type) (leb : A -> A -> bool) (l : list A), Permutation (sort leb l) l.
 Proof. exact @sort_perm. Qed.
+
+(* marker payloads: for ANY interleaving of register_marker_type / first uses of static schemas and add_marker calls that respects
+   the API (the type handle exists, the marker has a value for each field of its schema) - any number of schemas, any mix of
+   unique-string, plain-string and number fields, schemas registered between markers - adding the markers and serializing the data
+   column never panics (no index, split_at or split_first().unwrap() failure) and every marker gets back exactly the field values
+   its add_marker call supplied, in field order *)
+Theorem C03_marker_fields :
+  forall ops : list mop, ops_ok [] ops ->
+    exists s, mrun m_init ops = Some s /\ serialize_markers s = Some (supplied ops).
+Proof. exact marker_fields_roundtrip. Qed.
 
 (* the checker applied to every serialized thread decides exactly: all columns have the declared length, every index points into its
    table, every stack prefix points to an earlier row *)
@@ -72,7 +106,12 @@ Print Assumptions C03_table_indices.
 Print Assumptions C03_ids_unique.
 Print Assumptions C03_thread_refs.
 Print Assumptions C03_sort_permutes.
+Print Assumptions C03_threads_adjacent.
+Print Assumptions C03_threads_all_serialized.
+Print Assumptions C03_main_thread_first.
+Print Assumptions C03_first_thread_index.
 Print Assumptions C03_checker_decides.
+Print Assumptions C03_marker_fields.
 
 Example ex_c03 :
   (let '(h, tbl) := stack_of_frames [] None [3; 5; 3] in let '(h2, tbl2) := stack_of_frames tbl None [3; 5; 7] in
@@ -80,7 +119,10 @@ Example ex_c03 :
   make_all_unique [] [100; 101; 100; 100]%N = [(100, 0); (101, 0); (100, 1); (100, 2)]%N /\
   (* a worker registered before the main thread of its process: the main thread is serialized first and handle 1 translates to index 0 *)
   sorted_threads [(0, (100, 0))]%N [(0%nat, (true, 5, None, (11, 0))%N); (0%nat, (false, 9, None, (10, 0))%N)] = [1; 0] /\
-  new_thread_index [(0, (100, 0))]%N [(0%nat, (true, 5, None, (11, 0))%N); (0%nat, (false, 9, None, (10, 0))%N)] 1 = Some 0.
+  new_thread_index [(0, (100, 0))]%N [(0%nat, (true, 5, None, (11, 0))%N); (0%nat, (false, 9, None, (10, 0))%N)] 1 = Some 0 /\
+  (* two processes, the later-started one registered first; its counter index is behind the block of the other *)
+  sorted_threads [(9, (100, 0)); (3, (200, 0))]%N [(0%nat, (false, 9, None, (10, 0))%N); (1%nat, (true, 1, None, (21, 0))%N); (1%nat, (false, 4, None, (20, 0))%N)] = [2; 1; 0] /\
+  first_thread_index [(9, (100, 0)); (3, (200, 0))]%N [(0%nat, (false, 9, None, (10, 0))%N); (1%nat, (true, 1, None, (21, 0))%N); (1%nat, (false, 4, None, (20, 0))%N)] 0 = Some 2.
 Proof. vm_compute. repeat split. Qed.
 
 Example ex_c03_tables :
@@ -88,3 +130,10 @@ Example ex_c03_tables :
   (tt_strings t, tt_res_lib t, tt_res_name t, tt_funcs t, tt_func_res t, tt_frame_func t, tt_ns t, tt_ns_name t) =
   ([7; 8; 9; 5; 10]%N, [0], [2], [(0, None); (1, Some 0); (4, Some 0)], [None; Some 0; Some 0], [0; 1; 2; 2], [(0, 512%N)], [4]).
 Proof. vm_compute. reflexivity. Qed.
+
+Example ex_c03_markers :
+  let ops := [MReg [KUnique; KStr; KNum]; MReg [KUnique]; MAdd 1 [7]; MReg []; MAdd 0 [3; 4; 42]; MAdd 2 []; MAdd 0 [5; 6; 9]]%N in
+  ops_ok [] ops /\
+  option_map (fun s => (m_svals s, m_nvals s, serialize_markers s)) (mrun m_init ops) =
+    Some ([7; 3; 4; 5; 6], [42; 9], Some [[7]; [3; 4; 42]; []; [5; 6; 9]])%N.
+Proof. split; [cbn; repeat split; eexists; split; reflexivity|vm_compute; reflexivity]. Qed.
